@@ -156,7 +156,7 @@ def go_module(scr, name, gen, race=False, tags="verif", pkg_subdir=None, extra_s
     src = os.path.join(HARNESS, name)
     d = scr.sub("go-%s-%s%s" % (name, gen, "-race" if race else ""))
     for f in os.listdir(src):
-        if f.endswith(".go") or f.endswith(".json"):
+        if f.endswith(".go") or f.endswith(".json") or f.startswith("USE_"):
             shutil.copy(os.path.join(src, f), d)
     common = os.path.join(HARNESS, "common")
     if os.path.isdir(common):
@@ -210,6 +210,9 @@ def vt_bindings(scr, moddir):
         raise Broken("the v2 generator failed on the VT manifest:\n" + p.stdout[-3000:])
     with open(os.path.join(moddir, "registry.go"), "w") as f:
         subprocess.run([sys.executable, os.path.join(VERIF, "schemas", "vt.py"), "registry", "verifharness/gen"], stdout=f, check=True)
+    if os.path.exists(os.path.join(moddir, "USE_RESOURCES")):
+        with open(os.path.join(moddir, "resources.go"), "w") as f:
+            subprocess.run([sys.executable, os.path.join(VERIF, "schemas", "vt.py"), "resources", "verifharness/gen"], stdout=f, check=True)
     with open(os.path.join(moddir, "enums.json"), "w") as f:
         subprocess.run([sys.executable, os.path.join(VERIF, "schemas", "vt.py"), "enums"], stdout=f, check=True)
     # the generated all_imports_test.gr.go is a `package main` file in the output root; it is not part of the bindings
